@@ -48,9 +48,16 @@ func CombineFromNextProtos(prefix string, chunks []string) (string, error) {
 	}
 	var ret string
 	for _, chunk := range chunks {
-		// Strip that and the number
+		// Strip that and the number, which is terminated by a hyphen; the
+		// number is at least two digits but is wider past 99 chunks, and a
+		// malformed entry may not carry one at all
 		if strings.HasPrefix(chunk, prefix) {
-			ret += strings.TrimPrefix(chunk, prefix)[3:]
+			rest := strings.TrimPrefix(chunk, prefix)
+			idx := strings.IndexByte(rest, '-')
+			if idx < 0 {
+				continue
+			}
+			ret += rest[idx+1:]
 		}
 	}
 	return ret, nil
